@@ -105,7 +105,10 @@ pub fn numeric_list(s: &[u8]) -> (Vec<NEntry>, Tail) {
             match s.get(i) {
                 Some(c) if starts_number(*c) => {}
                 Some(c) if c.is_ascii_whitespace() => return (out, Tail::Unspec("white space")),
-                _ => return (out, Tail::Fault("range without end")),
+                // `1:` followed by another list-syntax character or the end is malformed but not one of
+                // the listed faults; only a foreign character is
+                None | Some(b':') | Some(b',') | Some(b'E') | Some(b'e') => return (out, Tail::Unspec("range without end")),
+                _ => return (out, Tail::Fault("foreign character")),
             }
             let b0 = i;
             let b1 = match nrf(s, i) {
@@ -176,7 +179,10 @@ fn spec_at(s: &[u8], mut i: usize) -> Result<(Vec<i128>, usize), Tail> {
             Some(c) if c.is_ascii_digit() || *c == b'+' || *c == b'-' => {}
             Some(c) if c.is_ascii_whitespace() => return Err(Tail::Unspec("white space")),
             Some(b'.') | Some(b'E') | Some(b'e') => return Err(Tail::Unspec("non-integer channel number")),
-            _ => return Err(Tail::Fault("number expected in channel spec")),
+            // a list-syntax character (or the end) where a number is expected is malformed but not one
+            // of the listed faults; only a foreign character is
+            None | Some(b'!') | Some(b':') | Some(b',') | Some(b'\'') | Some(b'"') => return Err(Tail::Unspec("number expected in channel spec")),
+            _ => return Err(Tail::Fault("foreign character in channel spec")),
         }
         let (v, e) = match int_at(s, i) {
             Some(x) => x,
@@ -253,7 +259,6 @@ pub fn channel_list(s: &[u8]) -> (Vec<CEntry>, Tail) {
                 i += 1;
                 let (b, e2) = match spec_at(s, i) {
                     Ok(x) => x,
-                    Err(Tail::Fault(_)) => return (out, Tail::Fault("range without end")),
                     Err(t) => return (out, t),
                 };
                 i = e2;
@@ -315,7 +320,11 @@ pub fn self_check() -> Result<(), String> {
         && matches!(n("1,").1, Tail::Unspec(_))
         && c("1!12,3!4:5!6,'POTATO'") == (vec![CEntry::Spec(vec![1, 12]), CEntry::Range(vec![3, 4], vec![5, 6]), CEntry::Path(b"POTATO".to_vec())], Tail::End)
         && c("1!2:3").1 == Tail::Fault("range ends of different dimension")
-        && c("1!!2").1 == Tail::Fault("number expected in channel spec")
+        && matches!(c("1!!2").1, Tail::Unspec(_))
+        && matches!(c("1!1:!1-1").1, Tail::Unspec(_))
+        && c("1!a").1 == Tail::Fault("foreign character in channel spec")
+        && matches!(n("1::2").1, Tail::Unspec(_))
+        && n("1:a").1 == Tail::Fault("foreign character")
         && c("1:2:3").1 == Tail::FaultAfterOptionalLast("third range end")
         && matches!(c("1'x'").1, Tail::UnspecAfterOptionalLast(_))
         && c("'x'a").1 == Tail::FaultAfterOptionalLast("foreign character after an entry")
